@@ -1,5 +1,6 @@
 //! One module per property.
 pub mod c01;
+pub mod c04;
 pub mod c05;
 pub mod c09;
 pub mod c11;
@@ -10,6 +11,7 @@ use crate::engine::report::Report;
 pub fn run(id: &str, tier: &str) -> Option<i32> {
     let r = match id {
         "C01" => { let r = Report::new(id, tier, "model_checking"); c01::check(&r); r }
+        "C04" => { let r = Report::new(id, tier, "model_checking"); c04::check(&r); r }
         "C05" => { let r = Report::new(id, tier, "model_checking"); c05::check(&r); r }
         "C09" => { let r = Report::new(id, tier, "model_checking"); c09::check(&r); r }
         "C11" => { let r = Report::new(id, tier, "model_checking"); c11::check(&r); r }
@@ -21,6 +23,7 @@ pub fn run(id: &str, tier: &str) -> Option<i32> {
 pub fn replay(id: &str, path: &str) -> Option<i32> {
     match id {
         "C01" => Some(c01::replay(path)),
+        "C04" => Some(c04::replay(path)),
         "C05" => Some(c05::replay(path)),
         "C09" => Some(c09::replay(path)),
         "C11" => Some(c11::replay(path)),
